@@ -141,7 +141,7 @@ def main(argv: List[str]) -> int:
         futs = {}
         for label, modname, hname, payload, k in jobs:
             mode = "smt" if meta[(modname, hname)].get("kind") == "smt" else "explore"
-            wall = payload["timeout"] * 1.5 + 90
+            wall = payload["timeout"] * 3 + 120  # CPU-time budget inside, generous wall outside (machine may be shared)
             futs[ex.submit(_run_worker, [mode, modname, hname, json.dumps(payload)], wall)] = (
                 label,
                 modname,
